@@ -285,3 +285,93 @@ def one_run(srv, sb, workdir, direction, remote, content, blk, w, tmo, label, ho
              "client_reported_error": ("error" in (so + se).lower()), "rc": rc, "timed_out": se == "TIMEOUT",
              "args": args[:1] + args[5:]}
     return srv_ev, cli_ev, final
+
+
+def client_reaction_runs(rng, n, workdir):
+    """tftpc against a scripted model server: records the request it sends and what it does after
+    a chosen first reply (Client.tla).  Returns Trace_Client events."""
+    os.makedirs(workdir, exist_ok=True)
+    rd = os.path.join(workdir, "rd")
+    os.makedirs(rd, exist_ok=True)
+    events = []
+    env = dict(os.environ)
+    env.pop("RUST_BACKTRACE", None)
+    for k in range(n):
+        mode = rng.choice(["download", "upload"])
+        blk = rng.choice([8, 512, 1024, 1468, 65464])
+        win = rng.choice([1, 2, 7, 64, 65535])
+        tmo = rng.choice([1, 5, 255])
+        fsize = rng.choice([0, 5, 511, 512, 513, 3000])
+        remote = rng.choice(["f.bin", "dir/sub/f.bin", "x"]) if mode == "download" else "up_%d.bin" % k
+        for f in os.listdir(rd):
+            os.remove(os.path.join(rd, f))
+        local = os.path.join(workdir, remote) if mode == "upload" else None
+        if local:
+            with open(local, "wb") as f:
+                f.write(bytes((i * 7) % 251 for i in range(fsize)))
+        def oack(pairs):
+            b = b"\0\6"
+            for o, v in pairs:
+                b += o.encode() + b"\0" + str(v).encode() + b"\0"
+            return b
+        replies = [
+            oack([("blksize", blk), ("windowsize", win), ("timeout", tmo), ("tsize", fsize)]),
+            oack([("blksize", blk)]), oack([("windowsize", win)]), oack([("tsize", 77)]),
+            oack([("blksize", max(8, blk // 2)), ("windowsize", max(1, win // 2))]),
+            oack([("blksize", blk * 2 if blk < 30000 else 65464)]),          # more than asked: adopted all the same
+            oack([("windowsize", 65536)]), oack([("windowsize", 70000)]), oack([("BLKSIZE", 16), ("unknown", 3)]),
+            NET.ack(0), NET.ack(7), NET.error(rng.randrange(8), b"no"), NET.error(1, b""),
+            NET.data(1, b"abc"), b"\x09\x09", b"\0\6blksize\0x\0",
+        ]
+        reply = rng.choice(replies)
+        srv = socket.socket(socket.AF_INET, socket.SOCK_DGRAM)
+        srv.bind((NET.HOST, 0))
+        port = srv.getsockname()[1]
+        args = [C.repo_bin("tftpc"), remote, "-i", NET.HOST, "-p", str(port), "-b", str(blk), "-w", str(win), "-t", str(tmo)]
+        args += ["-d", "-rd", rd] if mode == "download" else ["-u"]
+        pr = subprocess.Popen(args, cwd=workdir, env=env, stdout=subprocess.PIPE, stderr=subprocess.STDOUT)
+        srv.settimeout(3.0)
+        try:
+            req, caddr = srv.recvfrom(70000)
+        except socket.timeout:
+            pr.kill()
+            pr.wait()
+            srv.close()
+            events.append({"e": "cnorequest", "args": args[1:]})
+            continue
+        srv.sendto(reply, caddr)
+        srv.settimeout(0.6)
+        nxt = {"k": "none", "len": 0}
+        try:
+            b, a = srv.recvfrom(70000)
+            p = NET.parse(b)
+            if p["k"] == "ack":
+                nxt = {"k": "ack0" if p["n"] == 0 else "ack%d" % p["n"], "len": 0}
+            elif p["k"] == "data":
+                nxt = {"k": "data1" if p["n"] == 1 else "data%d" % p["n"], "len": len(p["payload"])}
+            else:
+                nxt = {"k": p["k"], "len": 0}
+        except socket.timeout:
+            pass
+        base = os.path.basename(remote)
+        if mode == "download" and nxt["k"] == "ack0":
+            # ACK 0 is sent by Client::download itself; the file is created by the worker thread right after
+            t_end = time.time() + 0.5
+            while time.time() < t_end and not os.path.lexists(os.path.join(rd, base)):
+                time.sleep(0.01)
+        created = mode == "download" and os.path.lexists(os.path.join(rd, base))
+        srv.sendto(NET.error(0, b"end of probe"), caddr)
+        try:
+            out, _ = pr.communicate(timeout=4.0)
+        except subprocess.TimeoutExpired:
+            pr.kill()
+            out, _ = pr.communicate()
+        srv.close()
+        text = out.decode("utf-8", "replace").lower()
+        # the report that matters is the one about the reply, not about our closing ERROR
+        reported = ("client received" in text) or ("unexpected" in text) or ("error" in text and nxt["k"] == "none")
+        name = remote if mode == "download" else base
+        events.append({"e": "crun", "mode": mode, "blk": blk, "win": win, "tmo": tmo, "fsize": fsize if mode == "upload" else 0,
+                       "name": NET.codes(name), "reqbytes": NET.codes(req), "reply": NET.codes(reply), "next": nxt,
+                       "created": bool(created), "reported": bool(reported)})
+    return events
